@@ -47,6 +47,36 @@ fn random_page(rng: &mut StdRng, id: u8, w: u32, h: u32) -> Page<'static> {
             return p;
         }
     }
+    if rng.gen_bool(0.2) {
+        // a page over raw bytes: random everywhere (header bytes 1..3, unused bits and filler included), or a drawn image whose
+        // filler bytes are 0x00 / random instead of 0xFF - the sign keeps whatever bytes it is sent
+        let base = Page::new(PageId(id), w, h);
+        let mut bytes = base.as_bytes().to_vec();
+        let data_end = (4 + w as usize * ((h as usize + 7) / 8)).min(bytes.len());
+        match rng.gen_range(0..3) {
+            0 => {
+                for b in bytes.iter_mut().skip(1) {
+                    *b = rng.r#gen();
+                }
+            }
+            1 => {
+                for b in bytes[data_end..].iter_mut() {
+                    *b = 0;
+                }
+            }
+            _ => {
+                for b in bytes[4.min(data_end)..data_end].iter_mut() {
+                    *b = rng.r#gen();
+                }
+                for b in bytes[data_end..].iter_mut() {
+                    *b = rng.r#gen();
+                }
+            }
+        }
+        if let Ok(p) = Page::from_bytes(w, h, bytes) {
+            return p;
+        }
+    }
     let mut p = Page::new(PageId(id), w, h);
     match rng.gen_range(0..4) {
         0 => {}
